@@ -267,13 +267,37 @@ def truncate_facts(prog, mapb, nfields):
     return out
 
 
+def key_bytes_name(put):
+    """(name, definition) of what put stores as the key: the key parameter itself, or - when put first converts it
+    (`bkey = key.encode() if isinstance(key, str) else key`) - the one local that is bound once, to an expression over the key
+    parameter alone, and is what gets written.  Everything the rules say about "the key" (header length, bytes written, index
+    entry, duplicate test) is said about this one name: using the unconverted parameter at one of these sites is the defect."""
+    from ..canon import Env
+
+    kpar = put.params()[1]
+    writes = [c for c in walk_no_nested(put.node) if isinstance(c, ast.Call) and norm(c.func).endswith("_stream.write") and c.args]
+    names = []
+    for w in writes:
+        for n in ast.walk(w.args[0]):
+            if isinstance(n, ast.Name) and n.id not in names:
+                names.append(n.id)
+    env = Env(put.node)
+    for nm in names:
+        if nm == kpar:
+            return kpar, None
+        v = env.single(nm)
+        if v is not None and {x.id for x in ast.walk(v) if isinstance(x, ast.Name)} - {"str", "bytes", "isinstance"} == {kpar}:
+            return nm, v
+    return kpar, None
+
+
 def put_facts(prog, put, nfields):
     """UKVFile.put by stream offsets: what is written, where, in which order; what is indexed; where _eof ends up."""
     from ..affine import Packed, StreamInterp
 
     rec_cls = prog.cls(f"{UKV}:UKVRecord")
     it = StreamInterp(prog, put, {HS: nfields, "_FILE_HEADER": 3}, rec_cls)
-    kpar, vpar = put.params()[1], put.params()[2]
+    kpar, vpar = key_bytes_name(put)[0], put.params()[2]
     it.run(put.node.body)
     H = Aff.sym(f"{HS}.size")
     E0 = Aff.sym("self._eof")
